@@ -473,7 +473,8 @@ func (tv Timespan) CanSerializeAsString() bool {
 }
 
 func (tv Timespan) SerializationString() string {
-	return tv.String()
+	// String() is the number of whole seconds; the serialized form keeps the fraction
+	return DefaultTimespanFormats[0].format(tv)
 }
 
 func (tv Timespan) String() string {
